@@ -266,3 +266,30 @@ func runPoolPoison(kind string, n int, tasks [][]byte, handle func(i int, r pool
 }
 
 var poisonAware = false
+
+// FreeRun executes the body of a schedule-exploration scenario n times with plain goroutines (no scheduler). It is
+// the companion of E3 for a race-detector build (run.sh with VERIF_RACE=1): the cooperative scheduler's hand-offs
+// are happens-before edges that blind the detector, a free-running execution is not. Sampling, hence an audit and
+// never a verdict: the output is the detector's.
+func FreeRun(scenario, arg, n string) {
+	sc, ok := schedScenarios[scenario]
+	if !ok {
+		fmt.Println("unknown scenario", scenario)
+		return
+	}
+	cnt := 0
+	fmt.Sscan(n, &cnt)
+	outcomes := map[string]int{}
+	for i := 0; i < cnt; i++ {
+		body, judge, cleanup := sc.Setup(json.RawMessage(arg))
+		done := make(chan struct{})
+		go func() { defer close(done); body() }()
+		<-done
+		obs, key, _ := judge(vrt.Result{})
+		outcomes[obs+" "+key]++
+		if cleanup != nil {
+			cleanup()
+		}
+	}
+	fmt.Printf("freerun %s %s: %d executions, outcomes %v\n", scenario, arg, cnt, outcomes)
+}
